@@ -107,6 +107,9 @@ def run(ctx):
                           "definitions": [d["name"] for d in defs][:5]})
             continue
         mods = res["modules"]
+        for sh in res.get("shadowed", [])[:3]:
+            fails.append({"what": "a generated module emits a structure twice (a field is typed with a class the module "
+                                  "does not export): " + sh, "module": sh.split(":")[0]})
         toks = [" ".join(gendefs.def_tokens(d)) for d in defs]
         gen_r = driver.run_parallel(["gen all " + t for t in toks])
         spec_r = driver.run_parallel(["defspec all " + t for t in toks])
